@@ -164,7 +164,8 @@ func runC13(c *an.Ctx) {
 					f = an.FieldOf(fl)
 				}
 			}
-			return isK && k.Value != nil && k.Value.String() == "0" && f != nil && f.Name() == "integer"
+			// the count is the second operand: other.integer, also when the test sits in a private helper
+			return isK && k.Value != nil && k.Value.String() == "0" && f != nil && f.Name() == "integer" && an.AccessPathIn(fn, b.X) == fn.Params[1].Name()+".integer"
 		}}
 		isU64 := &an.Guard{Name: "bigint.IsUint64()", FailModes: [][]an.Abs{{an.AFalse}}, MatchCall: func(k ssa.CallInstruction) bool {
 			f := k.Common().StaticCallee()
